@@ -2,6 +2,7 @@ import Fabio.Props.C09Compose
 import Fabio.Props.C03
 import Fabio.Props.C12
 import Fabio.Props.ServeHTTP
+import Fabio.Props.System
 /-!
 System-level composition for the **tcp+sni** path (round 4): `SNIProxy.ServeTCP` as ONE function over the route
 table, with every stage being the owning property's model —
@@ -243,6 +244,48 @@ theorem sni_system_end_to_end (cfg : Cfg) (t : Table) (peer : C12.TCPPeer)
   simp only [hadm, Bool.false_eq_true, if_false]
   rw [← hprox (cfg.proxyLine tg)]
   exact ⟨he.1, he.2.1, he.2.2.1, he.2.2.2.2⟩
+
+/-! ### … and behind the registry pipeline (C01 ∘ C14 ∘ C05): only healthy instances are dialled -/
+section
+open Fabio.Model.Route (Env)
+open Fabio.Model.C05Spec (key newTarget)
+open Fabio.Model.C01 Fabio.Model.C01Compose Fabio.Props.C01Compose
+open Fabio.Model.C14 (intents wantDef)
+open Fabio.Model.Parse (loadTable ParseFloat)
+open Fabio.Lemmas.C14 (core)
+variable (env : Env) (pf : ParseFloat) (ccfg : Fabio.Model.C14.Cfg) (st : List (List Char)) (strict : Bool)
+variable (checks : List Check) (catalog : List Char → List Instance)
+
+/-- **sni_tunnelled_only_to_eligible_instance.** On the service table of registry state R: a tcp+sni connection is
+tunnelled only to a target that is the `route add` of a routing tag of an instance eligible (healthy) in R, stored
+under the server name the client sent (lower-cased), whose access rules admitted the peer. -/
+theorem sni_tunnelled_only_to_eligible_instance (wf : WellFormed ccfg checks catalog) (t : Table)
+    (hload : loadTable env pf (svcText env pf ccfg st strict checks catalog) = .ok t)
+    (cfg : Cfg) (hpick : Props.C03.PickOK cfg.pick) (peer : C12.TCPPeer) (script : Script)
+    (ht : (sniSystem cfg t peer script).stage = .tunnel) :
+    ∃ nm ro tg, lookedUp (sniSystem cfg t peer script).hello = some nm ∧
+      C03.LookupHost cfg.pick t (nameStr nm) = some (ro, tg) ∧
+      C12.accessDeniedTCP (ServeHTTP.rulesOf cfg.http tg) peer = false ∧
+      (sniSystem cfg t peer script).upstream = cfg.proxyLine tg ++ streamOf script ∧
+      ∃ i, Eligible st strict checks catalog i ∧
+        ∃ it ∈ intents ccfg (regOf i), ∃ d u, wantDef pf it = some d ∧ env.normURL d.dst = some u ∧
+          key d.src = (lowerL (nameStr nm), ro.path) ∧ core tg = core (newTarget d u) := by
+  obtain ⟨nm, ro, tg, hl, _, hk, hro, hpk, hadm, hup⟩ := sni_tunnel_only_if cfg t peer script ht
+  have hinv := Props.System.inv_of_loadTable hload
+  have hne : ro.targets ≠ [] := by
+    rcases Fabio.Lemmas.C05Add.get_mem_or_nil t (lowerL (nameStr nm)) with h0 | hm
+    · rw [h0] at hro; cases hro
+    · exact (hinv.noEmpty _ hm).2 ro hro
+  have htg : tg ∈ ro.targets := by
+    rcases hpk with h | h
+    · exact h
+    · rw [h]; exact hpick ro hne
+  have hin := Props.System.selected_target_in_abs hinv hro htg
+  obtain ⟨i, he, it, hit, d, u, hw, hu, hkey, hc⟩ :=
+    table_sound env pf ccfg st strict checks catalog wf t hload (lowerL (nameStr nm)) ro.path tg hin
+  exact ⟨nm, ro, tg, hl, hk, hadm, hup, i, he, it, hit, d, u, hw, hu, hkey, hc⟩
+
+end
 
 /-! ### non-vacuity: C10's `exHello` ("example.com") against a table with an allow rule -/
 namespace Demo
